@@ -12,7 +12,9 @@ natural, byte-wise Ord of String and no comparator; varsort_alphanum sorts the s
 C10.F-print (PrintableInterpretation::fmt writes for position i the prefix {TOP->"T(", BOT->"F(", U->"u("} followed by
 ordering.name(Var(i)) for the same i, for every position; VarContainer::name reads names[var]), C09.F-order (file order
 -> variable index at construction time), C10.P-cli (in every CLI arm the sort calls come after a successful parse and
-there is no path from an ADF construction to a sort call), C08.F-label (a new label gets the next position)."""
+there is no path from an ADF construction to a sort call), C08.F-label (a new label gets the next position), C09.A-name and
+C03.A-rewrite (the two other places where the permutation between fact order and variable order is applied: the biodivine
+variable naming and the parse-time stable rewriting, which must pair variable formula_order[k] with the k-th condition)."""
 NOT_DECIDED = "The metamorphic claim itself (answer sets invariant under fact order, variable order, renaming) quantifies over results of the whole solver and is out of reach; only the plumbing is decided."
 TECHNIQUE = "static analysis: must-pass-through on the sort functions, resolved-callee typing, finite-domain closure table with source literals, CFG reachability between CLI call sites"
 
@@ -208,13 +210,15 @@ def P_cli(ctx, bin_):
 
 
 def check(ctx):
-    from rules import C08, C09
+    from rules import C03, C08, C09
     for cfg in configs(ctx.tier):
         ctx.cfg = cfg.name
         lib = ctx.load(cfg)
         P_reindex(ctx, lib)
         F_print(ctx, lib)
         C09.F_order(ctx, lib)
+        C09.A_name(ctx, lib)      # biodivine variables are named by variable index, not by label
+        C03.A_rewrite(ctx, lib)   # the parse-time rewriting pairs variable formula_order[k] with the k-th acceptance condition
         C08.F_label(ctx, lib)
     ctx.cfg = "bin@default"
     bin_ = ctx.load(facts.Config("bin"))
